@@ -329,10 +329,12 @@ Proof.
   unfold prop_validate, run_validate. destruct (untag TAG_VALIDATE inp) as [body|]; [|reflexivity].
   unfold prop_validate_body, run_validate_body.
   destruct (dec_validate body) as [[[g op] old] new].
-  cbn [zb bz].
-  destruct (validate g op old new =? 0) eqn:E.
-  - cbn. apply validate_code_spec. apply (admitted_sound g). exact E.
-  - reflexivity.
+  assert (V : validate_code op old new (zb (bz (validate g op old new =? 0))) = 0).
+  { destruct (validate g op old new =? 0) eqn:E; [|reflexivity].
+    cbn [zb bz Z.eqb negb]. apply validate_code_spec. apply (admitted_sound g). exact E. }
+  rewrite V. cbn [Z.eqb negb].
+  destruct (handle_driven op); [|reflexivity].
+  destruct (bz (validate g op old new =? 0) =? 2) eqn:E2; [reflexivity|exact V].
 Qed.
 
 (* ------------------------------------------------------------------ exported forms *)
@@ -369,7 +371,7 @@ Proof. unfold milli_value. apply ceil_div_spec. lia. Qed.
 (* 1.9995 CPUs (1999500 micro-cores) on an LSR/prod pod: admitted *)
 Definition submilli_pod : pod :=
   mkPod [(K_QOS, QoSLSR)] (Some 9500) EmptyString []
-        [mkC false [(R_CPU, 1999500000)] []] [] AnnAbsent.
+        [mkC false [(R_CPU, 1999500000)] []] [] None AnnAbsent [].
 Lemma whole_strict_refuted :
   exists p, allowed false OP_CREATE p p = true /\ qos_raw p = QoSLSR
             /\ pod_request p R_CPU mod nano <> 0.
